@@ -34,7 +34,7 @@ theorem goStringTail_plain (p : Str) (h : Plain p) : goStringTail (p ++ [cDQ]) =
       rw [hq]
       simp [goStringTail, hc.1, hc.2.1, hc.2.2, ih]
 
-/-- Full statement: the text emitted for a `default=` parameter is a Go string literal denoting the parameter. -/
+/-- Full statement for the pinned formatting (`"%s"`): the text emitted for a `default=` parameter is a Go string literal denoting the parameter. -/
 def c13_quote_full : Prop := ∀ p : Str, goStringLit (emitDefault p) = some p
 
 /-- … true for parameters without quote, backslash, newline … -/
@@ -53,6 +53,64 @@ example : Plain [0x68, 0x65, 0x6C, 0x6C, 0x6F] := by
   intro c hc
   simp at hc
   rcases hc with rfl | rfl | rfl | rfl | rfl <;> decide
+
+theorem quoteRune_spec (c : Nat) (a : Str) (h : quoteRune c = some a) (tail v : Str)
+    (ht : goStringTail (tail ++ [cDQ]) = some v) : goStringTail (a ++ (tail ++ [cDQ])) = some (c :: v) := by
+  unfold quoteRune at h
+  by_cases h1 : c = cDQ
+  · subst h1; simp at h; subst h; have ht2 := ht; simp only [cDQ] at ht2; simp [goStringTail, escapeValue, ht2, cDQ, cBS, cNL]
+  by_cases h2 : c = cBS
+  · subst h2; simp [h1] at h; subst h; have ht2 := ht; simp only [cDQ] at ht2; simp [goStringTail, escapeValue, ht2, cDQ, cBS, cNL]
+  by_cases h3 : c = 0x07
+  · subst h3; simp [cDQ, cBS] at h; subst h; have ht2 := ht; simp only [cDQ] at ht2; simp [goStringTail, escapeValue, ht2, cDQ, cBS, cNL]
+  by_cases h4 : c = 0x08
+  · subst h4; simp [cDQ, cBS] at h; subst h; have ht2 := ht; simp only [cDQ] at ht2; simp [goStringTail, escapeValue, ht2, cDQ, cBS, cNL]
+  by_cases h5 : c = 0x0C
+  · subst h5; simp [cDQ, cBS] at h; subst h; have ht2 := ht; simp only [cDQ] at ht2; simp [goStringTail, escapeValue, ht2, cDQ, cBS, cNL]
+  by_cases h6 : c = 0x0A
+  · subst h6; simp [cDQ, cBS] at h; subst h; have ht2 := ht; simp only [cDQ] at ht2; simp [goStringTail, escapeValue, ht2, cDQ, cBS, cNL]
+  by_cases h7 : c = 0x0D
+  · subst h7; simp [cDQ, cBS] at h; subst h; have ht2 := ht; simp only [cDQ] at ht2; simp [goStringTail, escapeValue, ht2, cDQ, cBS, cNL]
+  by_cases h8 : c = 0x09
+  · subst h8; simp [cDQ, cBS] at h; subst h; have ht2 := ht; simp only [cDQ] at ht2; simp [goStringTail, escapeValue, ht2, cDQ, cBS, cNL]
+  by_cases h9 : c = 0x0B
+  · subst h9; simp [cDQ, cBS] at h; subst h; have ht2 := ht; simp only [cDQ] at ht2; simp [goStringTail, escapeValue, ht2, cDQ, cBS, cNL]
+  simp [h1, h2, h3, h4, h5, h6, h7, h8, h9] at h
+  obtain ⟨hr, ha⟩ := h
+  subst ha
+  cases hq : tail ++ [cDQ] with
+  | nil => simp at hq
+  | cons d rest =>
+    rw [hq] at ht
+    simp [goStringTail, h1, h2, h6, ht, cNL] 
+
+theorem quoteBody_spec (p b : Str) (h : quoteBody p = some b) : goStringTail (b ++ [cDQ]) = some p := by
+  induction p generalizing b with
+  | nil => simp [quoteBody] at h; subst h; simp [goStringTail]
+  | cons c p ih =>
+    simp only [quoteBody] at h
+    cases ha : quoteRune c with
+    | none => simp [ha] at h
+    | some a =>
+      cases hb : quoteBody p with
+      | none => simp [ha, hb] at h
+      | some b' =>
+        simp [ha, hb] at h
+        subst h
+        rw [List.append_assoc]
+        exact quoteRune_spec c a ha b' p (ih b' hb)
+
+/-- **After the fix** every modelled parameter is emitted as a Go string literal denoting it. -/
+theorem c13_quote_fixed (p e : Str) (h : emitDefaultFixed p = some e) : goStringLit e = some p := by
+  unfold emitDefaultFixed at h
+  cases hb : quoteBody p with
+  | none => simp [hb] at h
+  | some b =>
+    simp [hb] at h
+    subst h
+    simp [goStringLit, quoteBody_spec p b hb]
+
+example : emitDefaultFixed [0x68, 0x65, cDQ, 0x6C, cBS, 0x0A] = some [cDQ, 0x68, 0x65, cBS, cDQ, 0x6C, cBS, cBS, cBS, 0x6E, cDQ] := by decide
 
 /-- the two `ReplaceAll` passes of the regex path amount to escaping `\` and `"` rune by rune -/
 def escChar (c : Nat) : Str := if c = cBS then [cBS, cBS] else if c = cDQ then [cBS, cDQ] else [c]
